@@ -111,6 +111,11 @@ func writeReplay(w *World, r *Result, path, prop string) bool {
 				}
 			}
 		}
+		if sr := rejectionReplay(prop, r); sr != "" {
+			fmt.Fprintf(&b, "\nA frame that MQTT obliges a decoder to refuse is accepted by the real ReadPacket (rejection harness; replay aid, not part of the proof):\n%s\nreplay: CONFIRMED on the real code\n", sr)
+			os.WriteFile(path, b.Bytes(), 0o644)
+			return true
+		}
 		if sr := credentialsReplay(r); sr != "" {
 			fmt.Fprintf(&b, "\nThe obligation is about information flow from the credentials. Two CONNECT packets differing only in equally long credentials render differently on the real code (replay aid, not part of the proof):\n%s\nreplay: CONFIRMED on the real code\n", sr)
 			os.WriteFile(path, b.Bytes(), 0o644)
